@@ -115,7 +115,17 @@ func c09(c *core.Ctx, r *core.Report) {
 		for _, e := range inLoop {
 			// the evaluation itself, or the call of the helper that makes it (`rateForTick(rate, due, lag)`: one evaluation
 			// on every path of the helper is what #tick-eval and the pairing rule count)
-			sel, idx := an.ArmOf(e.Root())
+			sel, idx := an.ArmOf(e.Instr)
+			if sel == nil || idx < 0 {
+				// … walking outwards through the helper frames to the first call that sits on an arm
+				chain := an.Chain(e)
+				for i := len(chain) - 1; i >= 0; i-- {
+					if s2, i2 := an.ArmOf(chain[i]); s2 != nil && i2 >= 0 {
+						sel, idx = s2, i2
+						break
+					}
+				}
+			}
 			if sel == nil || idx < 0 {
 				r.Violation(key+"#tick-arm", an.Pos(c, e.Instr), "the in-loop evaluation is not under a select arm: it is not tied to a tick")
 				continue
